@@ -176,6 +176,7 @@ class Registry:
         self.sym_getitem = {}
         self.sym_int = {}
         self.sym_truth = {}
+        self.sym_float = {}
         self.ctor_models = {}     # class -> assumed constructor model(interp, args, kwargs)
 
     def model(self, f):
